@@ -296,7 +296,7 @@ def run_history(spec, sessions=None, rng=None, nsess=0, nops=0, ctx=None, workdi
                             cache = core.local.db2cache.get(w.db)
                             if closing or cache is None or not cache.is_alive or not (cache.modified or cache.in_transaction): break
                             closing = True
-                            op = {'k': 'commit'}
+                            op = {'k': 'commit', 'implicit': True}
                         else: op = pending.pop(0)
                     else:
                         if k >= nops: op = {'k': rng.choice(['commit', 'commit', 'rollback'])}
@@ -369,7 +369,7 @@ def sessions_of(trace):
     out = [[]]
     for op, res, snap in trace:
         if op['k'] == 'end': out.append([])
-        else: out[-1].append(op)
+        elif not op.get('implicit'): out[-1].append(op)
     return [s for s in out if s]
 
 
